@@ -308,6 +308,19 @@ def run(ctx):
                     adds = [pathx.desc(x["a"][0]) for c, x in thir.calls_in(m["arms"][0]["b"]) if strip_generics(c).endswith("GitignoreBuilder::add_line")]
                     if adds:
                         loops[src] = adds[0]
+        # the same feeding written as `list.into_iter().try_for_each(|(line, dir)| builder.add_line(..))`
+        for c_, nd_ in thir.calls_in(root):
+            if strip_generics(c_).split("::")[-1] in ("try_for_each", "for_each") and len(nd_["a"]) == 2:
+                src = pathx.desc(nd_["a"][0]).replace("^", "")
+                for pre in ("IntoIterator::into_iter(", "slice::iter(", "Vec::iter("):
+                    if src.startswith(pre) and src.endswith(")"):
+                        src = src[len(pre):-1]
+                cl = thir.peel(nd_["a"][1])
+                g_ = facts.find_fn(cl.get("def")) if isinstance(cl, dict) and cl.get("k") == "closure" else None
+                if g_ is not None:
+                    adds = [pathx.desc(x["a"][0]).replace("^", "") for c2, x in thir.calls_in(thir.root(g_)) if strip_generics(c2).endswith("GitignoreBuilder::add_line")]
+                    if adds:
+                        loops[src] = adds[0]
         ctx.require(loops == {"filters": "filters_builder", "ignores": "ignores_builder"}, "R11.3", "builders-fed", "filters feed filters_builder, ignores feed ignores_builder",
                     n.loc(n.line), detail=str(loops), fail="the filter / ignore pattern lists feed the wrong builders: %s" % loops)
         lets = {}
